@@ -288,7 +288,7 @@ func ModuleFileList(r *rand.Rand) []ZipFileSpec {
 		fs = append(fs, f)
 	}
 	if r.Intn(12) == 0 {
-		f := zipFileFor(r, "LICENSE", false)
+		f := zipFileFor(r, pick(r, "LICENSE", "LICENSE", "third_party/LICENSE", "x/LICENSE.txt", "LICENSE/x", "license", "a/b/LICENSE", "x/go.mod", "go.mod/x"), false)
 		f.Size = zMaxLICENSE + int64(r.Intn(3)) - 1
 		fs = append(fs, f)
 	}
@@ -468,7 +468,9 @@ func ZipModuleVersion(r *rand.Rand) module.Version {
 			{Path: "gopkg.in/yaml.v2", Version: "v2.4.0"},
 			{Path: "example.com/M/k", Version: "v1.0.0-pre.1"},
 			{Path: "example.com/m", Version: "v2.0.0+incompatible"},
-		}[r.Intn(6)]
+			{Path: "rsc.io/quote", Version: "v17.0.0+incompatible"},
+			{Path: "example.com/m", Version: pick(r, "v10.1.2+incompatible", "v11.0.0+incompatible", "v19.9.9+incompatible", "v100.0.0+incompatible", "v123.4.5+incompatible", "v1.2.3+incompatible", "v0.1.0+incompatible", "v9.0.0+incompatible", "v20.0.0+incompatible")},
+		}[r.Intn(8)]
 	}
 	return []module.Version{
 		{Path: "example.com/m", Version: "v1.2"},
@@ -709,7 +711,7 @@ func ZipHostileArchive(r *rand.Rand, m module.Version) []ZipArchEntry {
 				name = q + "/" + ZipPathElem(r, false)
 			}
 		case k < 72:
-			name = pick(r, "go.mod", "GO.MOD", "Go.Mod", "a/go.mod", "a/GO.MOD", "LICENSE", "a/LICENSE", "vendor/modules.txt", "go.mod/", "go.mod/x")
+			name = pick(r, "go.mod", "GO.MOD", "Go.Mod", "a/go.mod", "a/GO.MOD", "LICENSE", "a/LICENSE", "third_party/LICENSE", "x/LICENSE.txt", "LICENSE/x", "license", "vendor/modules.txt", "go.mod/", "go.mod/x")
 		case k < 80:
 			name = pick(r, "..", "../x", "a/../../x", "/etc/passwd", "/", "//", "a//b", "./a", "a/./b", "a/", "a/b/", "", "a\\b", "..\\x", "a\\..\\..\\x", "C:/x", "c:\\x", "a/..", ".", "a/.", "\x00", "a/\xff", "../"+strings.TrimSuffix(prefix, "/")+"x/y")
 		default:
@@ -746,7 +748,7 @@ func ZipHostileArchive(r *rand.Rand, m module.Version) []ZipArchEntry {
 			if r.Intn(4) == 0 {
 				e.Declared = uint64(r.Intn(3))
 			}
-		} else if !calm && (name == "go.mod" || name == "LICENSE") && r.Intn(3) == 0 {
+		} else if !calm && (name == "go.mod" || strings.HasSuffix(name, "LICENSE") || strings.HasSuffix(name, "go.mod")) && r.Intn(3) == 0 {
 			e.Declared = uint64(zMaxGoMod) + uint64(r.Intn(3)) - 1
 		} else if !calm && r.Intn(12) == 0 {
 			// a header that declares 0 bytes for an entry with data, or bytes for an empty one
